@@ -21,13 +21,14 @@ type axis struct {
 }
 
 func (a *axis) getIndex(v float64) int {
-	index := int(math.Floor((v-a.start)/a.size)) + 1
-	if index < 0 {
-		index = 0
-	} else if index >= a.bins {
-		index = a.bins - 1
+	// clamp before converting: the conversion of an out of range float is undefined
+	f := math.Floor((v-a.start)/a.size) + 1
+	if !(f >= 1) {
+		return 0
+	} else if f >= float64(a.bins) {
+		return a.bins - 1
 	}
-	return index
+	return int(f)
 }
 
 type bin struct {
